@@ -267,14 +267,18 @@ class HTTP1Connection(httputil.HTTPConnection):
                     if self._body_timeout is None:
                         await body_future
                     else:
+                        body_task = asyncio.ensure_future(body_future)
                         try:
                             await gen.with_timeout(
                                 self.stream.io_loop.time() + self._body_timeout,
-                                body_future,
+                                body_task,
                                 quiet_exceptions=iostream.StreamClosedError,
                             )
                         except gen.TimeoutError:
                             gen_log.info("Timeout reading body from %s", self.context)
+                            # Stop the body reader: it must not hand buffered
+                            # data to the delegate after the close notification.
+                            body_task.cancel()
                             self.stream.close()
                             return False
             self._read_finished = True
